@@ -8,6 +8,7 @@ set and every starting list.  No floats are involved except as opaque values
 -/
 import Pastel.Model.Distinct
 import Pastel.Lemmas.Annealing
+import Pastel.Lemmas.Rearrange
 
 namespace Pastel.C14
 open Pastel
@@ -334,5 +335,24 @@ theorem saRun_result_exact {α : Type} [ScT α] [ScOrd α] (big : α) (p : SaPar
       intro s hs
       simp at hs; subst hs
       exact saInv_init big p colors d hm hn) st h).exact
+
+
+/-! ### Farthest-first order -/
+
+/-- **`rearrange_sequence` is farthest-first**: in the returned order `out`, for every position
+`k ≥ 1`, the colour at `k` has the largest minimal key to the colours before it among all colours
+at positions `≥ k` (`key` = distance × 1000 truncated to `i32`: the 0.001 resolution of the
+property; `minD key c pre` = smallest key from `c` to the colours in `pre`).  Loop invariants in
+`Lemmas/Rearrange.lean` (`InnerSpec`, `OuterInv`). -/
+theorem rearrange_farthest_first (key : Nat → Nat → Int) (n : Nat) (out : List Nat)
+    (h : rearrange key n = some out) :
+    ∀ k, 1 ≤ k → k < n → ∀ j, k ≤ j → j < n →
+      minD key (out.getD j 0) (out.take k) ≤ minD key (out.getD k 0) (out.take k) :=
+  Pastel.rearrange_farthest_first key n out h
+
+/-- Non-vacuity: five points on a line at 0, 10, 1, 7, 4 — the order is 0, 10, then the point
+farthest from both (4), then 7, then 1. -/
+example : rearrange (fun a b => ((([0, 10, 1, 7, 4] : List Int).getD a 0) - (([0, 10, 1, 7, 4] : List Int).getD b 0)).natAbs) 5
+    = some [0, 1, 4, 3, 2] := by decide
 
 end Pastel.C14
